@@ -2,6 +2,7 @@ package main
 
 import (
 	"go/constant"
+	"go/token"
 	"go/types"
 	"sort"
 	"strings"
@@ -185,7 +186,15 @@ func mustPrecede(to ssa.Instruction, pred func(ssa.Instruction) bool) bool {
 		if !ok {
 			return true
 		}
-		phi, ok := ifi.Cond.(*ssa.Phi)
+		cond, neg := ifi.Cond, false
+		for {
+			u, isNot := cond.(*ssa.UnOp)
+			if !isNot || u.Op != token.NOT || u.Block() != x {
+				break
+			}
+			cond, neg = u.X, !neg
+		}
+		phi, ok := cond.(*ssa.Phi)
 		if !ok || phi.Block() != x {
 			return true
 		}
@@ -198,7 +207,7 @@ func mustPrecede(to ssa.Instruction, pred func(ssa.Instruction) bool) bool {
 				return true
 			}
 			taken := x.Succs[1]
-			if constant.BoolVal(k.Value) {
+			if constant.BoolVal(k.Value) != neg {
 				taken = x.Succs[0]
 			}
 			return taken == s
